@@ -2,6 +2,7 @@ package main
 
 import (
 	"fmt"
+	"io"
 	"os"
 	"sort"
 	"time"
@@ -201,9 +202,13 @@ func runC11(c *Ctx) {
 				flush()
 			}
 			noffsets++
-			for kind := 0; kind < 4; kind++ {
+			for kind := 0; kind < 6; kind++ {
 				rs := readScript{cut: -1, fault: -1}
 				switch kind {
+				case 4: // the reader's own error is the value the library uses for its own short reads
+					rs.fault, rs.ferr = o, io.ErrUnexpectedEOF
+				case 5: // a truncated input behind a reader that knows its length (bytes.Reader, strings.Reader)
+					rs.cut, rs.withLen = o, true
 				case 0:
 					rs.cut = o
 				case 1:
@@ -220,7 +225,7 @@ func runC11(c *Ctx) {
 				for _, api := range apis {
 					id++
 					cl := p.runCall(id, api, b, rs, CallOpts{UF: 1, UM: 1}, true)
-					cl.Note = fmt.Sprintf("stream %d (%d bytes), %s at %d, chunks %v", si, len(b), []string{"cut", "fault", "cut with data+EOF", "fault with data+error"}[kind], o, rs.chunks)
+					cl.Note = fmt.Sprintf("stream %d (%d bytes), %s at %d, chunks %v", si, len(b), []string{"cut", "fault", "cut with data+EOF", "fault with data+error", "fault reported as io.ErrUnexpectedEOF", "cut, reader with Len()"}[kind], o, rs.chunks)
 					calls = append(calls, cl)
 				}
 				// header-only entry points: only offsets near the header matter
@@ -240,7 +245,7 @@ func runC11(c *Ctx) {
 	c.Cov["offsets"] = noffsets
 	c.Cov["evaluations"] = ncalls
 	c.Cov["distinct_nontrivial"] = noffsets
-	c.Cov["rule"] = "valid single and chained streams x cut / fault offsets (every offset for short streams; header, record boundaries +-1, buffer boundaries +-1, CRC bytes and a seeded sample otherwise) x {clean EOF, fault, last bytes together with EOF, last bytes together with the fault} x entry points; distinct = (stream, offset) pairs"
+	c.Cov["rule"] = "valid single and chained streams x cut / fault offsets (every offset for short streams; header, record boundaries +-1, buffer boundaries +-1, CRC bytes and a seeded sample otherwise) x {clean EOF, fault, last bytes together with EOF, last bytes together with the fault, fault reported as io.ErrUnexpectedEOF, reader with a Len method} x entry points; distinct = (stream, offset) pairs"
 	if sampleCall != nil {
 		c.sample(map[string]interface{}{"kind": "call", "note": sampleCall.Note, "err": sampleCall.Ret.Err, "contract": sampleCall.Final + ": " + sampleCall.Why})
 	}
